@@ -50,7 +50,7 @@ class C18(Check):
     extracted = ['coq/Codec/model.mli', 'coq/Codec/model.ml', 'ocaml/zconv.ml', 'ocaml/codec_driver.ml']
     harness_sources = ['harness/codec.cpp']
     technique = 'machine-checked proof (Coq 8.16) about an executable model + differential correspondence under ASan/UBSan'
-    level_text = ('19 theorems in Coq (Properties_C18.v, all closed under the global context) about an executable model of the codecs. '
+    level_text = ('20 theorems in Coq (Properties_C18.v, all closed under the global context) about an executable model of the codecs. '
                   'UTF-8: for every code point 0 <= cp < 0x110000 (all 1,114,112, by range with lia/bit lemmas, no sweep) toString cp is '
                   'the RFC 3629 layout, fromString(toString cp) = cp and isValid accepts it (utf8_roundtrip, utf8_text_roundtrip for '
                   'sequences); surrogates D800..DFFF are laid out as ordinary 3-byte sequences - the code excludes nothing '
@@ -67,9 +67,10 @@ class C18(Check):
                   '3-byte groups + three tails; base64_inverts_rfc4648, base64_table_inverts_alphabet) and for every input list stays '
                   'inside its input, its 123-entry table and its output buffer and never reads an unwritten cell (base64_in_bounds); '
                   'the code as found leaves the table on byte 0x80 (base64_as_found_refuted). Tables (base64 decode table, hex digits, '
-                  'UTF-8 offsets) are regenerated from the source on every run. The model is tied to the code by running the extracted '
+                  'UTF-8 offsets) are regenerated from the source on every run (element widths included; strict translator). The model is tied to the code by running the extracted '
                   'model, the extracted reference (RFC layouts, canonical decimal text) and the ASan/UBSan build of the working tree on '
-                  'the same inputs with exactly sized heap buffers.')
+                  'the same inputs with exactly sized heap buffers; fromString and isValid are driven through both the pointer and '
+                  'the String overloads.')
     level_note = ('PARTIAL: libc formatting and parsing (vsnprintf %d %u %lld %llu; atoi, strtoul, atoll, strtoull of glibc on LP64) are '
                   'MODELLED as reference decimal functions (digit loop; white space, sign, longest digit prefix, clamp to 64 bit, cast) - '
                   'the integer theorems are about that model (trusted) and the tie for it is boundary/random differential testing only. '
@@ -83,7 +84,7 @@ class C18(Check):
                   'and all byte strings of length <= 3 for the readers in the thorough tier (length <= 2 + class-alphabet sweeps in '
                   'quick), 4-character base64 strings with one position over all 256 byte values. Trusted: Coq kernel, CodecSpec.v '
                   '(RFC 3629 / RFC 4648 / decimal transcription, guarded by known-answer Examples), extraction + OCaml driver, harness, '
-                  'table translator.')
+                  'table translator (strict: gen/tables.py refuses whatever it cannot read unambiguously; self-test tools/test_tables.py).')
     rule = ('one case = a batch of independent codec calls (u8rt/u8enc/u8dec/u8valid/u8len/u8sw, hex, b64/b64sw, from*/to*/rt* for the four '
             'integer types; u8sw/b64sw = 256 calls, one byte position running over all values); streams: code points (all of them in '
             'thorough; every range edge +-2, 0..0x8ff, a stride and random ones in quick), all byte strings up to length 2 (length 3 in '
@@ -92,7 +93,9 @@ class C18(Check):
             'values, RFC 4648 encodings of random byte strings and mutations of them, integer boundaries (min/max, 0, +-1, 10^k+-1, '
             '2^k+-1) and random values, malformed decimal text. A case is non-trivial when at least one call takes a multi-byte / '
             'multi-digit / multi-group path (code point >= 0x80, reader input with a byte >= 0x80, any sweep, base64 input of a non-zero '
-            'multiple of 4 characters, |integer| >= 10, non-empty hex input); distinct = distinct op text')
+            'multiple of 4 characters, |integer| >= 10, non-empty hex input); u8rt/u8dec/u8valid print the reader results twice '
+            '(pointer overload on an exactly sized heap copy, then the String overload); hex inputs include 63, 64, 65, 300 and '
+            '5000 bytes; distinct = distinct op text')
     assumptions = ['glibc on LP64 for the integer conversions: printf %d/%u/%lld/%llu print canonical decimal text; strtol/strtoul/strtoll/'
                    'strtoull skip white space, take an optional sign and the longest digit prefix, clamp to 64 bit (modelled, not proved of libc)',
                    'char is signed 8 bit, uint32 arithmetic wraps modulo 2^32 (x86-64 ABI)',
